@@ -347,13 +347,15 @@ impl Color3f<Hsl> {
         let x = c * (1.0 - f32::abs(h % 2.0 - 1.0));
         let m = 1.0 * l - c / 2.0;
 
-        let rgb = match (h - 0.5) as i32 {
+        // Truncate to get the sextant. A hue of exactly 1.0 wraps around
+        // to the first one, but `x` is zero there so the last one will do.
+        let rgb = match h as i32 {
             0 => [c, x, 0.0],
             1 => [x, c, 0.0],
             2 => [0.0, c, x],
             3 => [0.0, x, c],
             4 => [x, 0.0, c],
-            5 => [c, 0.0, x],
+            5 | 6 => [c, 0.0, x],
             _ => unreachable!("h={h}"),
         };
 
